@@ -12,14 +12,18 @@ Case kinds
           the base data source and, for each shard index, the shard for every offset 0..size+extra_off
   rr      n, k, idxs, start, calls: the k round-robin iterators of an iterable
   merged  parts (per index the value or the exception raised; sliceable or not), max_batch, queries
+  recv    `state` / `from_state` round trips through ANY receiver: receiver x state-origin matrix for SequenceDataSource /
+          SequenceIterator, ShardedIterable / DataIterator, MultiplexIterator over per-thread shards
+          (harness/lib_c09recv.py; model lean/MlModel/Model/ShardRecv.lean, wire name "shardrecv")
 """
 import itertools
 
 from harness.core import err_kind
+from harness import lib_c09recv as R
 
 PID = 'C09'
 TITLE = 'Sharding partitions a data source exactly'
-LEAN_MODULES = ['MlModel.Properties.C09']
+LEAN_MODULES = ['MlModel.Properties.C09', 'MlModel.Witness.C09Recv']
 TRUSTED = [
     'modelled, not verified: bisect.bisect_right, itertools.accumulate/chain, slice.indices, collections.deque, '
     'divmod on Python ints, list/range slicing of the underlying sequences (their list semantics are written out '
@@ -38,7 +42,15 @@ RULE = ('small-exhaustive: every (n<=12, k<=14) at depth 1, every parent shard x
         'round-robin n<=12, k<=14, start<=n+1; then random large cases and ~10% malformed inputs (num_shards<1, '
         'shard index out of range, slice step, failing/non-sliceable sources); non-trivial = at least two non-empty '
         'shards / a split with >=2 parts one of which is empty or a slice crossing a part boundary / >=2 round-robin '
-        'shards with data; distinct = distinct canonical case JSON')
+        'shards with data; distinct = distinct canonical case JSON.  Receiver matrix (kind recv): for every origin kind '
+        '(root, shard i/k with and without offset, nested shard, restored-with-offset source) x state kind (source.state, '
+        'iterator.state after 0 / 1 / half / all elements) every receiver kind (root, shard, nested shard, restored source, '
+        'sibling, the origin itself, its sub-shard; each as a source and as a partly consumed iterator; the very iterator '
+        'that produced the state) calls from_state, over single and merged (from_sequences) data with ignore_error on and '
+        'off; the same for ShardedIterable / DataIterator and for MultiplexIterator over per-thread shards (receivers: '
+        'itself, a fresh one, all roots, rotated siblings, sub-shards, iterators, restored sources; wrong source count); '
+        'literal states outside the domain (num_shards < 1, index / offset out of range) through every receiver; every '
+        'promised receiver x origin arm is enforced (exit 2 if a run misses one)')
 
 ERRS = ['ValueError', 'TypeError', 'RuntimeError', 'KeyError', 'ZeroDivisionError']
 _EXC = dict(ValueError=ValueError, TypeError=TypeError, RuntimeError=RuntimeError, KeyError=KeyError,
@@ -176,15 +188,29 @@ def gen_cases(ctx):
           ctx.count('merged.unsliceable', 1)
       for q in c['queries']:
         ctx.count('merged.query', q['t'])
+    elif kind == 'recv':
+      ctx.count('recv.cls', c['cls'])
+      for a in R.arms(c):
+        ctx.count('recv.arm', a)
     else:
       ctx.count('rr.k_vs_n', 'k>n' if c['k'] > c['n'] else 'k<=n')
       ctx.count('rr.start', 'resumed' if c['start'] else 'fresh')
     yield c
 
 
+def extra(ctx):
+  """Enforced coverage of the receiver x origin matrix."""
+  from harness.core import InfraError
+  seen = ctx.hist.get('recv.arm', {})
+  missing = [a for a in R.PROMISED if not seen.get(a)]
+  if missing:
+    raise InfraError(f'C09 generator missed promised receiver x origin arms: {missing[:12]} ({len(missing)} in all)')
+
+
 def _gen_cases(ctx):
   yield from ctx.corpus()
   rng, quick = ctx.rng, ctx.quick
+  yield from R.gen(ctx)
 
   # ---- shards, depth 1: every n <= 12, k <= 14, all shard indices, every offset, three source layouts
   for n in range(0, 13):
@@ -453,13 +479,15 @@ def run_merged(case):
 
 
 def run_impl(case):
-  return dict(shards=run_shards, rr=run_rr, merged=run_merged)[case['kind']](case)
+  return dict(shards=run_shards, rr=run_rr, merged=run_merged, recv=R.run_impl)[case['kind']](case)
 
 
 # ----------------------------------------------------------------------------- model
 
 def model_requests(case):
   kind = case['kind']
+  if kind == 'recv':
+    return R.model_requests(case)
   if kind == 'shards':
     return [dict(model='shard', op='shards', sizes=case['sizes'], path=case['path'], k=case['k'], idxs=case['idxs'],
                  extra_off=case['extra_off'])]
@@ -471,6 +499,8 @@ def model_requests(case):
 
 def model_obs(case, resps):
   kind = case['kind']
+  if kind == 'recv':
+    return R.model_obs(case, resps)
   if kind == 'shards':
     return resps[0]
   if kind == 'rr':
@@ -620,11 +650,13 @@ def oracle_merged(case, obs):
 
 
 def oracle(case, obs):
-  return dict(shards=oracle_shards, rr=oracle_rr, merged=oracle_merged)[case['kind']](case, obs)
+  return dict(shards=oracle_shards, rr=oracle_rr, merged=oracle_merged, recv=R.oracle)[case['kind']](case, obs)
 
 
 def nontrivial(case, obs):
   kind = case['kind']
+  if kind == 'recv':
+    return R.nontrivial(case, obs)
   if kind == 'shards':
     return sum(1 for _, o in obs['shards'] if o and o[0].get('elems')) >= 2
   if kind == 'rr':
@@ -642,7 +674,9 @@ def finding(case, what):
 def neighbours(case, rng):
   import copy
   kind = case['kind']
-  if kind == 'shards':
+  if kind == 'recv':
+    yield from R.neighbours(case, rng)
+  elif kind == 'shards':
     n = sum(case['sizes'])
     for nn in range(max(0, n - 2), n + 3):
       for k in range(1, 8):
@@ -671,6 +705,8 @@ def neighbours(case, rng):
 def shrink(case, fails):
   import copy
   cur = case
+  if cur['kind'] == 'recv':
+    return R.shrink(cur, fails)
   if cur['kind'] == 'merged':
     # one failing query is enough; then drop parts / elements while it keeps failing
     obs = run_impl(cur)
